@@ -225,6 +225,31 @@ def run_path(init_fs, labels, paths, k, rng):
 
 _SCRATCH = None
 _G = None
+_FAST = []
+
+
+def fast_scratch(prefix):
+    """Scratch root for the hundreds of thousands of tiny directories the replay creates and removes: memory-backed
+    (/dev/shm) when the machine has it and TMPDIR does not say otherwise - on a disk-backed /tmp the replay is I/O bound.
+    Removed at exit by this module (also when the run ends with a violation or a machinery failure)."""
+    base = None
+    if not os.environ.get('TMPDIR') and os.path.isdir('/dev/shm') and os.access('/dev/shm', os.W_OK | os.X_OK):
+        base = '/dev/shm'
+    try:
+        d = tempfile.mkdtemp(prefix=prefix, dir=base)
+    except OSError:
+        d = tempfile.mkdtemp(prefix=prefix)
+    if not _FAST:
+        import atexit
+        owner = os.getpid()
+
+        def _rm():
+            if os.getpid() == owner:
+                for x in _FAST:
+                    shutil.rmtree(x, ignore_errors=True)
+        atexit.register(_rm)
+    _FAST.append(d)
+    return d
 
 
 def parse_label(label):
@@ -627,7 +652,7 @@ def judge(events):
 def run(tier, seed, ev, vd):
     global _SCRATCH
     from . import c07_cli
-    _SCRATCH = tlc.scratch('c07fs_')
+    _SCRATCH = fast_scratch('c07fs_')
     quick = tier == 'quick'
     # the command-line / singleton families: worker processes started before anything else (no thread exists yet); they run
     # beside the model checking and the replay below and are collected at the end
@@ -779,7 +804,7 @@ def run_histories(family, quick, ev, vd):
     # machinery: everything generated must have been judged, and every class of history must have occurred - unless histories
     # were rejected (a rejected history stops being walked, so its later steps are not counted)
     missing = [c for c in c07_cli.REQUIRED_CLASSES if not m['classes'].get(c)]
-    if not m['violations']:
+    if not m['violations'] and not vd.count():
         if m['unjudged']:
             raise tlc.MachineryError('%d recorded histories could not be judged (first: %s)' % (len(m['unjudged']), m['unjudged'][0]['err']))
         if missing:
@@ -811,7 +836,7 @@ def run_histories(family, quick, ev, vd):
 
 def replay(sc):
     global _SCRATCH
-    _SCRATCH = tlc.scratch('c07r_')
+    _SCRATCH = fast_scratch('c07r_')
     if 'fam' in sc and sc['fam'] in ('cli', 'lib'):
         from . import c07_cli
         return c07_cli.replay(sc, _SCRATCH)
@@ -830,7 +855,7 @@ def replay(sc):
 def selftest(seed):
     global _SCRATCH
     from . import c07_cli
-    _SCRATCH = tlc.scratch('c07st_')
+    _SCRATCH = fast_scratch('c07st_')
     events = writer_events(seed)
     e = dict(events[1])
     e['after_call'] = e['after_write']          # pretend the writer by-passed deferral
